@@ -7,6 +7,18 @@ HOOK_COMMITS = ["2c68a33", "da4e8eb"]
 
 # id -> (engine, level, technique, level text, level note)
 CHECKS = {
+ "C10": ("bubble", "exploration",
+         "generated decision-table authorizers evaluated by harness and router alike; denied steps: reply + no-effect oracle; allowed/rewritten steps: lock-step model of the authorizer-free router",
+         "runtime monitor: the harness computes the authorizer's decision for every scripted message; denied messages must draw exactly the documented ERROR (none for unacknowledged PUBLISH) and nothing else may be observed by any session, catch-all or meta observer; allowed, rewritten and session-changing decisions are checked against the model that decides the router without an authorizer",
+         "authorizers are pure functions of (message type, URI, authrole); side effects outside session details and message are not modelled"),
+ "C11": ("bubble", "exploration",
+         "same script in several realms with colliding ids; per-realm lock-step models with catch-all and meta observers; cross-realm attack steps; RemoveRealm at run time",
+         "runtime monitor: every message observed by any session must be predicted by its own realm's model, so anything crossing a realm boundary is an unpredicted message; attack steps use session ids, invocation ids and URIs that are only valid in another realm; removing a realm must end exactly its sessions",
+         "realm ids collide by construction (per-realm id generators), session ids are random"),
+ "C20": ("bubble", "exploration",
+         "lock-step event-history ring model; get_events/lookup queries from every transport and serializer",
+         "runtime monitor: retained entries, filter selection, order, entry content and is_limit_reached of every get_events answer are compared with a reference ring that records the last N unrestricted matching publications independent of subscriber churn",
+         "clock advanced in whole seconds so time filters have unambiguous answers; publication-id filters only name retained or formerly retained publications"),
  "C04": ("bubble", "exploration",
          "process-exit/panic/race oracle plus liveness probe of uninvolved sessions after every hostile step (bubble), under the race detector",
          "runtime monitor: hostile sessions send every message type in every session state with hostile values in every field/option/detail position and correlated multi-step recipes over all transports; after each step two uninvolved sessions must complete a pub/sub, RPC and meta exchange at quiescence and still be attached; a worker process death (panic, fatal error) is attributed to the logged case by the driver; data-race reports with nexus frames are violations of this property",
